@@ -69,9 +69,7 @@ func CfgEditFor(mvcc bool) func(string) string {
 
 func cfgEdit(s string, mvcc bool) string {
 	s = strings.Replace(s, "[exec]\nenableStat=false\nenableMVCC=false\n", fmt.Sprintf("[exec]\nenableStat=true\nenableMVCC=%v\nenableAddrFeeIndex=true\n", mvcc), 1)
-	// the solo miner must stay idle even when a reorganisation returns transactions to the pool and the
-	// process is stalled for more than the mininode's poll interval of one second
-	s = strings.Replace(s, "waitTxMs=1000\n", "waitTxMs=100000000\n", 1)
+	// (the mininode's solo miner is off: vnode.CfgString)
 	s = strings.Replace(s, "superManager=[\n", "superManager=[\n    \""+Addrs[A]+"\",\n", 1)
 	return s
 }
